@@ -40,6 +40,10 @@ type g2lUnit struct {
 	absSigs   map[string]string // Lean parameter name -> Lean type ("node" -> "H → H → H")
 	absVars   map[string]string // Go package variable -> Lean parameter name ("emptyHash" -> "empty")
 	pkgVars   map[string]string // Go package variable -> Lean constant (regenerated table in Generated/Facts.lean)
+	errFields map[string]bool   // error struct types whose (string / integer) fields are kept in the error text
+	errCarry  map[string]bool   // error struct types whose single field is returned in the (otherwise nil) first result slot
+	nonNilIfaces map[string]bool // interface-typed values of these types are never nil (`x == nil` is false)
+	stdCalls  map[string]stdFn  // source text of a call's function expression -> GoRt function (e.g. binary.BigEndian.Uint32)
 	absCalls  map[string]string // source text of a call's function expression -> Lean parameter (":recv" suffix: pass the root receiver)
 	ifaces    map[string]string // interface type name -> Lean type of the value (its single method is application)
 	imports   []string          // extra Lean imports
@@ -355,6 +359,13 @@ func (f *g2lFn) zero(t types.Type, at ast.Node) string {
 			return "(default : " + f.structType(n.Obj().Name()) + ")"
 		}
 	}
+	if pt, ok := t.(*types.Pointer); ok {
+		if n, ok := pt.Elem().(*types.Named); ok {
+			if _, ok := n.Underlying().(*types.Struct); ok {
+				return "(default : " + f.structType(n.Obj().Name()) + ")"
+			}
+		}
+	}
 	switch t.Underlying().(type) {
 	case *types.Map:
 		return "([] : " + f.leanType(t, at) + ")"
@@ -515,6 +526,28 @@ func (f *g2lFn) expr(b *binds, e ast.Expr) string {
 							}
 						}
 					}
+					// an error struct whose fields are strings / integers keeps them: "T|<hex>|<n>"
+					if f.u.errFields[n.Obj().Name()] && len(cl.Elts) > 0 {
+						parts := []string{}
+						okAll := true
+						for _, el := range cl.Elts {
+							v := el
+							if kv, ok := el.(*ast.KeyValueExpr); ok {
+								v = kv.Value
+							}
+							switch vt := f.typeOf(v); {
+							case isBytesLike(vt):
+								parts = append(parts, "errHex "+f.expr(b, v))
+							case intKindOf(vt) != notInt:
+								parts = append(parts, "toString "+f.expr(b, v))
+							default:
+								okAll = false
+							}
+						}
+						if okAll {
+							return fmt.Sprintf("(errWith %q [%s])", n.Obj().Name(), strings.Join(parts, ", "))
+						}
+					}
 					return fmt.Sprintf("(some %q)", n.Obj().Name())
 				}
 			}
@@ -581,9 +614,50 @@ func (f *g2lFn) expr(b *binds, e ast.Expr) string {
 		if sel, ok := f.p.info.Selections[e]; ok && sel.Kind() == types.FieldVal {
 			return "(" + f.expr(b, e.X) + ")." + leanIdent(e.Sel.Name)
 		}
+		// a package function used as a value (strings.IndexFunc(name, unicode.IsSpace))
+		if id, ok := e.X.(*ast.Ident); ok {
+			if pn, ok := f.p.info.Uses[id].(*types.PkgName); ok {
+				if p, ok := f.u.absFuncs[pn.Imported().Name()+"."+e.Sel.Name]; ok {
+					f.useAbs(p)
+					return p
+				}
+			}
+		}
 		f.bad(e, "selector %s", show(e))
 	case *ast.CompositeLit:
 		return f.composite(b, e)
+	case *ast.TypeAssertExpr:
+		// `_, ok := err.(*T)` on an error value: only the boolean is meaningful
+		if isErrorType(f.typeOf(e.X)) && e.Type != nil {
+			t := f.p.info.Types[e.Type].Type
+			if pt, ok := t.(*types.Pointer); ok {
+				t = pt.Elem()
+			}
+			if n, ok := t.(*types.Named); ok {
+				if tup, ok := f.typeOf(e).(*types.Tuple); ok && tup.Len() == 2 {
+					return fmt.Sprintf("((), errIs %q %s)", n.Obj().Name(), f.expr(b, e.X))
+				}
+			}
+		}
+		f.bad(e, "type assertion %s", show(e))
+	case *ast.FuncLit:
+		// func(r T) U { return <pure expr> }
+		if len(e.Body.List) == 1 && e.Type.Params != nil {
+			if rs, ok := e.Body.List[0].(*ast.ReturnStmt); ok && len(rs.Results) == 1 {
+				ps := []string{}
+				for _, fld := range e.Type.Params.List {
+					for _, n := range fld.Names {
+						ps = append(ps, fmt.Sprintf("(%s : %s)", f.name(n), f.leanType(f.p.info.Types[fld.Type].Type, fld)))
+					}
+				}
+				var lb binds
+				body := f.expr(&lb, rs.Results[0])
+				if len(lb.lines) == 0 {
+					return "(fun " + strings.Join(ps, " ") + " => " + body + ")"
+				}
+			}
+		}
+		f.bad(e, "function literal")
 	case *ast.CallExpr:
 		r := f.call(b, e)
 		return r
@@ -653,6 +727,18 @@ func (f *g2lFn) binary(b *binds, e *ast.BinaryExpr) string {
 			return f.bindM(b, fmt.Sprintf("(if %s then %s else pure false)", x, inner))
 		}
 		return f.bindM(b, fmt.Sprintf("(if %s then pure true else %s)", x, inner))
+	}
+	if e.Op == token.EQL || e.Op == token.NEQ {
+		for _, pair := range [][2]ast.Expr{{e.X, e.Y}, {e.Y, e.X}} {
+			if id, ok := pair[1].(*ast.Ident); ok && id.Name == "nil" {
+				if n, ok := f.typeOf(pair[0]).(*types.Named); ok && f.u.nonNilIfaces[n.Obj().Name()] {
+					if e.Op == token.EQL {
+						return "false"
+					}
+					return "true"
+				}
+			}
+		}
 	}
 	x := f.exprAs(b, e.X, f.typeOf(e.Y))
 	y := f.exprAs(b, e.Y, xt)
